@@ -1,7 +1,8 @@
 #!/bin/bash
-# usage: tools/seedin.sh <id>   - confirm the seeded changes an agent left in /tmp/seed_<id>_out and store them in seeded/<id>/
+# usage: tools/seedin.sh <id> [srcdir] [name]  - confirm the seeded changes an agent left in srcdir (default /tmp/seed_<id>_out)
+# and store them in seeded/<name>/ (default <id>; second-round changes use <id>b)
 cd "$(dirname "$0")/.."
-id=$1; src=/tmp/seed_${id}_out; dst=seeded/$id
+id=$1; src=${2:-/tmp/seed_${id}_out}; name=${3:-$id}; dst=seeded/$name
 mkdir -p $dst
 wt=/tmp/conf_$id
 export XDG_CACHE_HOME=/tmp/conf_$id.cache   # the library's disk cache must never be shared with runs of other trees
@@ -11,11 +12,11 @@ git -C /repo worktree add --detach $wt HEAD -q || exit 2
 for k in 1 2; do
   [ -f $src/patch$k.diff ] || continue
   ( cd $wt && git checkout -q -- . && PYTHONPATH=$wt timeout 600 /venv/bin/python $src/demo$k.py >/tmp/conf_$id.out 2>&1 ); rc0=$?
-  if ! git -C $wt apply $src/patch$k.diff; then echo "SEED $id/$k PATCH-DOES-NOT-APPLY"; continue; fi
+  if ! git -C $wt apply $src/patch$k.diff; then echo "SEED $name/$k PATCH-DOES-NOT-APPLY"; continue; fi
   files=$(git -C $wt diff --name-only | tr '\n' ' ')
   ( cd $wt && PYTHONPATH=$wt timeout 600 /venv/bin/python $src/demo$k.py >/tmp/conf_$id.out 2>&1 ); rc1=$?
   tests=$( cd $wt && PYTHONPATH=$wt timeout 1500 /venv/bin/python -m pytest -q -p no:cacheprovider --timeout=900 --continue-on-collection-errors 2>&1 | grep -E "^FAILED|passed|failed" | tr '\n' ' ' | cut -c1-300 )
-  echo "SEED $id/$k pristine_rc=$rc0 patched_rc=$rc1 files: $files tests: $tests | $(grep -m1 'PROPERTY VIOLATED' /tmp/conf_$id.out | cut -c1-160)"
+  echo "SEED $name/$k pristine_rc=$rc0 patched_rc=$rc1 files: $files tests: $tests | $(grep -m1 'PROPERTY VIOLATED' /tmp/conf_$id.out | cut -c1-160)"
   cp $src/patch$k.diff $src/demo$k.py $dst/
   git -C $wt checkout -q -- .
 done
